@@ -31,6 +31,7 @@ type Prog struct {
 	srcFns []*ssa.Function
 	serve  map[string]*serveResult
 	nonNil map[*ssa.Function]int8
+	e7c    *e7
 
 	NFuncs int
 }
